@@ -186,6 +186,15 @@ def run(ctx):
         if rng.random() < 0.5:
             net.sn_mva = rng.choice([1., 10., 100., 0.1])
         name = names[k % len(names)]
+        if rng.random() < (0.8 if name == "row permutation" or "perm" in name else 0.3) and len(net.line) >= 3:
+            # an out-of-service bus at the end of an in-service line, and an out-of-service line stored after it (a row permutation
+            # changes which of the two comes first)
+            li = [int(i) for i in net.line.index]
+            a_ = li[0]
+            dead = pp.create_bus(net, float(net.bus.vn_kv.at[net.line.from_bus.at[a_]]), in_service=False)
+            pp.create_line_from_parameters(net, int(net.line.from_bus.at[a_]), dead, 1.2, 0.2, 0.3, 40., 0.4, index=min(li) - 1 if min(li) > 0 else None)
+            net.line.at[li[-1], "in_service"] = False
+            net.line.sort_index(inplace=True)
         mode = ["fresh", "init_results", "dc"][(k // len(names)) % 3]        # every transformation meets every mode
         opts = dict(voltage_depend_loads=False, calculate_voltage_angles=True, trafo_model=rng.choice(["t", "pi"]))
         try:
